@@ -462,7 +462,7 @@ pub fn run(ctx: &Ctx) {
         }
     });
     // byte-buffer targets fed with string literals holding raw (often non-UTF-8) bytes
-    ctx.search(&subs[1], "bytes-literals", ctx.n(400_000, 4_000_000), 120, &|src: &mut Src| {
+    ctx.search(&subs[1], "bytes-literals", ctx.n(1_200_000, 9_600_000), 120, &|src: &mut Src| {
         fn lit(src: &mut Src, out: &mut Vec<u8>) {
             out.push(b'"');
             let n = src.below(8);
@@ -511,7 +511,7 @@ pub fn run(ctx: &Ctx) {
         }
         c
     });
-    ctx.search(&subs[0], "values", ctx.n(6_000_000, 60_000_000), 300, &|src: &mut Src| {
+    ctx.search(&subs[0], "values", ctx.n(18_000_000, 144_000_000), 300, &|src: &mut Src| {
         let mut c = vec![if src.chance(8) { 200u8 } else { src.below(family::N_TYPES) as u8 }];
         c.extend_from_slice(src.rest());
         c
